@@ -23,7 +23,7 @@ type opDef struct {
 
 type opTable struct {
 	ops   []opDef
-	shape int // 0: one production per operator; 1: same, operators in reverse textual order; 2: with a parenthesised atom
+	shape int // 0: one production per operator; 1: same, operators in reverse textual order; 2: with a parenthesised atom; 3: a two-token operator; 4: with an index-like atom N LB e RB (two-token prefix, a closing token that follows e nowhere else)
 }
 
 func (t opTable) String() string {
@@ -40,7 +40,12 @@ func (t opTable) String() string {
 
 func (t opTable) loxText() string {
 	var b strings.Builder
-	b.WriteString("@lexer\nN = 'n'\nA = 'a'\nB = 'b'\nC = 'c'\nLP = '('\nRP = ')'\n@parser\n@start s = e\ne = ")
+	if t.shape == 4 {
+		// brackets declared before the operators: the operators get the highest terminal numbers
+		b.WriteString("@lexer\nN = 'n'\nLP = '('\nRP = ')'\nLB = '['\nRB = ']'\nA = 'a'\nB = 'b'\nC = 'c'\n@parser\n@start s = e\ne = ")
+	} else {
+		b.WriteString("@lexer\nN = 'n'\nA = 'a'\nB = 'b'\nC = 'c'\nLP = '('\nRP = ')'\nLB = '['\nRB = ']'\n@parser\n@start s = e\ne = ")
+	}
 	var alts []string
 	for _, o := range t.ops {
 		a := "@left"
@@ -62,6 +67,8 @@ func (t opTable) loxText() string {
 			alts[i], alts[j] = alts[j], alts[i]
 		}
 		alts = append([]string{"N"}, alts...)
+	} else if t.shape == 4 {
+		alts = append(alts, "LP e RP", "N LB e RB", "N")
 	} else {
 		alts = append(alts, "N")
 	}
@@ -112,7 +119,7 @@ func enumOpTables() []opTable {
 					}
 					ops = append(ops, od)
 				}
-				for shape := 0; shape < 4; shape++ {
+				for shape := 0; shape < 5; shape++ {
 					if shape == 3 {
 						hasB := false
 						for _, o := range ops {
@@ -153,6 +160,9 @@ func (c *climber) primary() string {
 	if t.kind == "(" {
 		inner := c.expr(0)
 		c.pos++ // )
+		if t.text == "N LB" {
+			return "(N LB " + inner + " RB)"
+		}
 		return "(LP " + inner + " RP)"
 	}
 	return "N"
@@ -316,7 +326,7 @@ func TestOperatorGrouping(t *testing.T) {
 					toks = append(toks, climbTok{kind: "op", op: ops[o], text: o}, climbTok{kind: "n", text: "N"})
 				}
 				check(toks)
-				if tab.shape == 2 && len(seq) <= 3 {
+				if (tab.shape == 2 || tab.shape == 4) && len(seq) <= 3 {
 					// parenthesise operands lo..hi (0-based operand indices)
 					for lo := 0; lo <= len(seq); lo++ {
 						for hi := lo + 1; hi <= len(seq); hi++ {
@@ -326,11 +336,19 @@ func TestOperatorGrouping(t *testing.T) {
 									pt = append(pt, climbTok{kind: "op", op: ops[seq[k-1]], text: seq[k-1]})
 								}
 								if k == lo {
-									pt = append(pt, climbTok{kind: "(", text: "LP"})
+									if tab.shape == 4 {
+										pt = append(pt, climbTok{kind: "(", text: "N LB"})
+									} else {
+										pt = append(pt, climbTok{kind: "(", text: "LP"})
+									}
 								}
 								pt = append(pt, climbTok{kind: "n", text: "N"})
 								if k == hi {
-									pt = append(pt, climbTok{kind: ")", text: "RP"})
+									if tab.shape == 4 {
+										pt = append(pt, climbTok{kind: ")", text: "RB"})
+									} else {
+										pt = append(pt, climbTok{kind: ")", text: "RP"})
+									}
 								}
 							}
 							check(pt)
@@ -347,5 +365,5 @@ func TestOperatorGrouping(t *testing.T) {
 		}
 		run(nil)
 	})
-	rep.done(t, true, fmt.Sprintf("%d operator tables (1..3 binary operators, every assignment of levels and per-level associativity, four layouts of the rule (one with a two-token operator sharing its first token with another operator of its level), level numbers 1..3 scaled by 1, 7 or 10, or written 9, 010, 0011) x every operator sequence of length <= %d (with parentheses around every contiguous operand group for sequences <= 3)", len(tables), maxOps))
+	rep.done(t, true, fmt.Sprintf("%d operator tables (1..3 binary operators, every assignment of levels and per-level associativity, five layouts of the rule (one with a two-token operator sharing its first token with another operator of its level, one with an index-like atom N [ e ] whose brackets are declared before the operators), level numbers 1..3 scaled by 1, 7 or 10, or written 9, 010, 0011) x every operator sequence of length <= %d (with parentheses around every contiguous operand group for sequences <= 3)", len(tables), maxOps))
 }
